@@ -286,3 +286,208 @@ hdwallet::verif_harness! {
         check_filter(&text, &skip);
     }
 }
+
+// ------------------------------------------------------------------------------------------------
+// The same queries with String's growth policy replaced by a fixed pre-allocation (common.rs:
+// string_new_stub / string_push_stub): the filter closure, the prefix handling and the decoder are real.
+macro_rules! filter_cap_harness {
+    ($($name:ident = $n:expr, $u:expr;)*) => {$(
+        hdwallet::verif_harness! {
+            #[kani::stub(::hex::decode, hex_decode_stub)]
+            #[kani::stub(alloc::string::String::new, hdwallet::__verif_common::string_new_stub)]
+            #[kani::stub(alloc::string::String::push, hdwallet::__verif_common::string_push_stub)]
+            #[kani::unwind($u)]
+            fn $name() { check_filter_ascii::<$n>() }
+        }
+    )*};
+}
+filter_cap_harness! {
+    c19_filtercap_ascii_3 = 3, 6; c19_filtercap_ascii_4 = 4, 7; c19_filtercap_ascii_6 = 6, 9;
+    c19_filtercap_ascii_8 = 8, 11; c19_filtercap_ascii_12 = 12, 15;
+}
+hdwallet::verif_harness! {
+    #[kani::stub(alloc::string::String::new, hdwallet::__verif_common::string_new_stub)]
+    #[kani::stub(alloc::string::String::push, hdwallet::__verif_common::string_push_stub)]
+    #[kani::unwind(9)]
+    fn c19_hexcap_ascii6() {
+        let text: [u8; 6] = kani::any();
+        let n: usize = kani::any();
+        kani::assume(n <= 6);
+        let mut i = 0;
+        while i < 6 {
+            kani::assume(text[i] < 0x80);
+            i += 1;
+        }
+        let skip = [false; 6];
+        let r = check_against_spec::<6>(&text[..n], &skip[..n]);
+        kani::cover!(r == Some(3), "three bytes decoded");
+        kani::cover!(r == Some(2) && n == 6 && text[1] == b'x', "prefixed, two bytes");
+        kani::cover!(r == Some(1) && n == 6, "one byte among whitespace");
+        kani::cover!(r == Some(0) && n == 2, "empty after the prefix");
+        kani::cover!(r.is_none() && n == 3, "odd digit count rejected");
+    }
+}
+
+macro_rules! cap_harness {
+    ($(#[$m:meta])* fn $name:ident() $body:block) => {
+        hdwallet::verif_harness! {
+            #[kani::stub(alloc::string::String::new, hdwallet::__verif_common::string_new_stub)]
+            #[kani::stub(alloc::string::String::push, hdwallet::__verif_common::string_push_stub)]
+            #[kani::stub(alloc::string::String::push_str, hdwallet::__verif_common::string_push_str_stub)]
+            $(#[$m])*
+            fn $name() $body
+        }
+    };
+}
+
+filter_cap_harness! { c19_filtercap_ascii_16 = 16, 19; }
+
+// Every ASCII string of 0..=4 bytes through the real decoder (the cheaper sibling of c19_hexcap_ascii6).
+cap_harness! {
+    #[kani::unwind(7)]
+    fn c19_hexcap_ascii4() {
+        let text: [u8; 4] = kani::any();
+        let n: usize = kani::any();
+        kani::assume(n <= 4);
+        let mut i = 0;
+        while i < 4 {
+            kani::assume(text[i] < 0x80);
+            i += 1;
+        }
+        let skip = [false; 4];
+        let r = check_against_spec::<4>(&text[..n], &skip[..n]);
+        kani::cover!(r == Some(2), "two bytes decoded");
+        kani::cover!(r == Some(1) && n == 4 && text[1] == b'x', "prefixed, one byte");
+        kani::cover!(r == Some(1) && n == 4 && text[1] != b'x', "one byte among whitespace");
+        kani::cover!(r == Some(0) && n == 2, "empty after the prefix");
+        kani::cover!(r.is_none() && n == 3, "odd digit count rejected");
+    }
+}
+
+// One non-ASCII character -- a symbolic choice of four Unicode white-space characters (U+0085, U+00A0, U+2003,
+// U+3000) and two characters that are NOT white space (U+00E9, U+200B ZERO WIDTH SPACE) -- at a symbolic
+// position among five symbolic ASCII bytes, real decoder: white space is ignored anywhere (also inside the
+// prefix and between the two digits of a byte), anything else that is not a hex digit is refused.
+const PALETTE: [([u8; 3], usize, bool); 6] = [
+    ([0xc2, 0x85, 0], 2, true),
+    ([0xc2, 0xa0, 0], 2, true),
+    ([0xe2, 0x80, 0x83], 3, true),
+    ([0xe3, 0x80, 0x80], 3, true),
+    ([0xc3, 0xa9, 0], 2, false),
+    ([0xe2, 0x80, 0x8b], 3, false),
+];
+fn build_unicode<const A: usize, const N: usize>() -> ([u8; N], [bool; N], usize, usize, usize, bool) {
+    let a: [u8; A] = kani::any();
+    let pos: usize = kani::any();
+    let which: usize = kani::any();
+    kani::assume(pos <= A && which < 6);
+    let (enc, el, ws) = PALETTE[which];
+    let mut text = [0u8; N]; // N = A + 3
+    let mut skip = [false; N];
+    let mut i = 0;
+    let mut o = 0;
+    while i <= A {
+        if i == pos {
+            let mut k = 0;
+            while k < 3 {
+                if k < el {
+                    text[o] = enc[k];
+                    skip[o] = ws;
+                    o += 1;
+                }
+                k += 1;
+            }
+        }
+        if i < A {
+            kani::assume(a[i] < 0x80);
+            text[o] = a[i];
+            o += 1;
+        }
+        i += 1;
+    }
+    (text, skip, o, pos, el, ws)
+}
+cap_harness! {
+    #[kani::unwind(10)]
+    fn c19_hexcap_unicode() {
+        let (text, skip, o, pos, el, ws) = build_unicode::<5, 8>();
+        let r = check_against_spec::<8>(&text[..o], &skip[..o]);
+        kani::cover!(r == Some(2) && ws && pos == 2, "white space right after the prefix");
+        kani::cover!(r == Some(1) && ws && pos == 1, "white space inside the prefix");
+        kani::cover!(r.is_some() && ws && el == 2, "two-byte white space ignored");
+        kani::cover!(r.is_some() && ws && el == 3, "three-byte white space ignored");
+        kani::cover!(r.is_none() && !ws, "non-ASCII character that is not white space refused");
+        assert!(ws || r.is_none(), "non-hex character accepted");
+    }
+}
+cap_harness! {
+    #[kani::stub(::hex::decode, hex_decode_stub)]
+    #[kani::unwind(14)]
+    fn c19_filtercap_unicode() {
+        let (text, skip, o, _pos, _el, _ws) = build_unicode::<9, 12>();
+        check_filter(&text[..o], &skip[..o]);
+    }
+}
+
+// hex decode . hex encode = id, and decoding is insensitive to layout: the text `hex encode` prints
+// ("0x" + hex::encode(data) + newline) and every respelling of it -- each digit in either case, the prefix
+// present or absent, one white-space character inserted at any position -- decodes to the original bytes.
+fn check_respell<const L: usize, const N: usize>() {
+    let data: [u8; L] = kani::any();
+    let encoded = ::hex::encode(data);
+    assert!(encoded.len() == 2 * L, "hex encode: length is not two digits per byte");
+    let eb = encoded.as_bytes();
+    let mut i = 0;
+    while i < L {
+        let hi = b"0123456789abcdef"[(data[i] >> 4) as usize];
+        let lo = b"0123456789abcdef"[(data[i] & 0xf) as usize];
+        assert!(eb[2 * i] == hi && eb[2 * i + 1] == lo, "hex encode is not two lower-case digits per byte");
+        i += 1;
+    }
+    let upper: [bool; N] = kani::any();
+    let prefix: bool = kani::any();
+    let gap: usize = kani::any();
+    let gap_char: u8 = kani::any();
+    kani::assume(matches!(gap_char, b' ' | b'\t' | b'\n' | b'\r' | 0x0b | 0x0c));
+    // N = 2L; the text has at most 2 + 2L + 2 bytes
+    let mut text = String::new();
+    let mut count = 0;
+    if prefix {
+        if gap == 0 { text.push(gap_char as char); }
+        text.push('0');
+        if gap == 1 { text.push(gap_char as char); }
+        text.push('x');
+        count = 2;
+    }
+    let mut i = 0;
+    while i < 2 * L {
+        if gap == count + i { text.push(gap_char as char); }
+        let c = eb[i];
+        text.push((if upper[i] { c.to_ascii_uppercase() } else { c }) as char);
+        i += 1;
+    }
+    text.push('\n');
+    let got = permissive_hex(&text);
+    kani::cover!(prefix && gap == 1, "white space inside the prefix");
+    kani::cover!(!prefix, "no prefix");
+    kani::cover!(L > 0 && upper[0] && !upper[1], "mixed case");
+    kani::cover!(gap > 2 + 2 * L, "plain `hex encode` output (no inserted white space)");
+    match &got {
+        Ok(bytes) => {
+            assert!(bytes.len() == L, "round trip changed the length");
+            let mut i = 0;
+            while i < L {
+                assert!(bytes[i] == data[i], "round trip changed a byte");
+                i += 1;
+            }
+        }
+        Err(_) => panic!("a spelling of the encoded text was rejected by decode"),
+    }
+    core::mem::forget(got);
+}
+cap_harness! { #[kani::unwind(6)] fn c19_respell_0() { check_respell::<0, 0>() } }
+cap_harness! { #[kani::unwind(8)] fn c19_respell_1() { check_respell::<1, 2>() } }
+cap_harness! { #[kani::unwind(10)] fn c19_respell_2() { check_respell::<2, 4>() } }
+cap_harness! { #[kani::unwind(12)] fn c19_respell_3() { check_respell::<3, 6>() } }
+cap_harness! { #[kani::unwind(14)] fn c19_respell_4() { check_respell::<4, 8>() } }
+cap_harness! { #[kani::unwind(22)] fn c19_respell_8() { check_respell::<8, 16>() } }
